@@ -14,6 +14,8 @@ use std::collections::HashSet;
 
 #[cfg(not(feature = "std"))]
 use hashbrown::HashSet;
+#[cfg(cairo_verif)]
+use crate::verif_hash::hashbrown_shadow as hashbrown;
 
 /// A hash set that does not care about the order of insertion.
 ///
